@@ -49,6 +49,34 @@ claim(
     "DESIGN.md section 3, C09",
 )
 
+claim(
+    "C10", "exploration",
+    "Hypothesis-generated entries dicts across all word-size classes, save -> load round trip through a real file",
+    "Random entries dicts (arity 1..4, coordinates and common drawn independently from the four word-size classes and "
+    "their boundaries, row ids up to 2^32-1, empty arrays, no entries) are saved and loaded back; every component "
+    "(common, key tuples and their element types, arrays, dtype) is compared and the index is rebuilt and validated.",
+    "Round trip through the library's own reader: symmetric encoder/decoder errors are C11's job.",
+    "DESIGN.md section 3, C10",
+)
+claim(
+    "C11", "exploration",
+    "differential testing against an independent INDX encoder/decoder written from the format docstring, both directions, plus duck-typed size probes",
+    "Bytes written by save are decoded by an independent decoder and re-encoded by an independent encoder and must match "
+    "byte for byte; the library's loader is fed files produced by the independent encoder with every legal word-size "
+    "combination (including ones the saver never chooses); payload-size arithmetic is probed across 2^30 and 2^32 with "
+    "duck-typed arrays whose tofile() seeks.",
+    "The IndxIO class docstring is the specification; entry order is free. Size probes do not materialise data.",
+    "DESIGN.md section 3, C11",
+)
+claim(
+    "C12", "fault_enumeration",
+    "exhaustive cut-point enumeration (every prefix length of every generated file) with 'load must raise' oracle",
+    "For every generated file, every strict prefix (all k in [0, len)) is materialised by truncating the real file and "
+    "loaded; any return is a violation. The fault space per file is enumerated completely; files are sampled by Hypothesis.",
+    "Fault model = the file is a strict prefix of the intended bytes (as the property states).",
+    "DESIGN.md section 3, C12",
+)
+
 NOT_YET = "check not built yet in this session (work in progress; see DESIGN.md section 9 build order)"
 
 ALL = ["C%02d" % i for i in range(1, 21)]
